@@ -233,6 +233,29 @@ func runC18(c *Ctx) {
 		c.Obl("R0", "dpipe/test.Bridge", "anchors are resolved", 1).Undecide("dpipe.Pipe/conn.Read/Write/Close or test.Bridge.Push/Tick/NewBridge not found")
 		return
 	}
+	// channel roles of a pipe end: the message channel Read receives from, the one Write sends to, and the
+	// channel whose closing makes Write refuse
+	rField, wField, closedField := "", "", ""
+	for _, cm := range commsOfU(dr) {
+		if cm.Dir == types.RecvOnly && cm.Sel != nil {
+			if ct, ok := cm.Chan.Type().Underlying().(*types.Chan); ok && isByteSlice(ct.Elem()) {
+				if fr, ok := asFieldLoad(cm.Chan); ok && fr.SName == "dpipe.conn" {
+					rField = fr.Field
+				}
+			}
+		}
+	}
+	for _, cm := range commsOfU(dw) {
+		fr, ok := asFieldLoad(cm.Chan)
+		if !ok || fr.SName != "dpipe.conn" {
+			continue
+		}
+		if cm.Dir == types.SendOnly {
+			wField = fr.Field
+		} else if ct, ok := cm.Chan.Type().Underlying().(*types.Chan); ok && !isByteSlice(ct.Elem()) {
+			closedField = fr.Field
+		}
+	}
 	o := c.Obl("R1", fname(dw), "dpipe Write copies the caller's slice: what is queued is a fresh copy", 1)
 	for _, s := range retainedBy(p, dw, 1, nil) {
 		o.Fail(s.In.Pos(), "the caller's buffer is queued itself: %s", s.Why)
@@ -243,56 +266,87 @@ func runC18(c *Ctx) {
 			if _, ok := rootOf(cm.Send).(*ssa.MakeSlice); !ok {
 				o.Fail(cm.Instr.Pos(), "the message queued is not a freshly allocated copy")
 			}
-			if chanRole(cm.Chan) != "field dpipe.conn.wCh" {
-				o.Fail(cm.Instr.Pos(), "Write queues on %s, not on the write channel", chanRole(cm.Chan))
+			if fr, ok := asFieldLoad(cm.Chan); !ok || fr.SName != "dpipe.conn" {
+				o.Fail(cm.Instr.Pos(), "Write queues on %s, not on a channel of the pipe end", chanRole(cm.Chan))
 			}
 		}
 	}
+	if rField == "" || wField == "" || closedField == "" {
+		o.Fail(dw.Pos(), "channel roles of a pipe end not found (Read receives messages from %q, Write sends to %q and refuses on %q)", rField, wField, closedField)
+	} else if rField == wField {
+		o.Fail(dw.Pos(), "Write sends on the channel the same end reads from (%s)", rField)
+	}
 
 	o = c.Obl("R2", fname(pipe), "Pipe cross-wires two distinct channels (a.rCh = b.wCh, a.wCh = b.rCh), gives each end its own closed channel, and Close closes only the end's own closed channel, once", 3)
-	type endT struct{ rCh, wCh, closed ssa.Value }
+	type endT struct{ rCh, wCh, closed string } // identities of the channels an end is built with ("" = not a fresh channel)
 	var ends []endT
-	instrsOf(pipe, func(in ssa.Instruction) {
-		al, ok := in.(*ssa.Alloc)
-		if !ok || typeName(al.Type()) != "dpipe.conn" {
-			return
+	for _, g := range unitOf(pipe) {
+		var sites []ssa.Instruction
+		if g == pipe {
+			sites = []ssa.Instruction{nil}
+		} else {
+			sites = curSites.sites[g]
 		}
-		var e endT
-		for _, rf := range *al.Referrers() {
-			if fa, ok := rf.(*ssa.FieldAddr); ok {
-				fr, _ := asFieldAddr(fa)
-				for _, rr := range *fa.Referrers() {
-					if st, ok := rr.(*ssa.Store); ok {
-						switch fr.Field {
-						case "rCh":
-							e.rCh = st.Val
-						case "wCh":
-							e.wCh = st.Val
-						case "closed":
-							e.closed = st.Val
+		instrsOf(g, func(in ssa.Instruction) {
+			al, ok := in.(*ssa.Alloc)
+			if !ok || typeName(al.Type()) != "dpipe.conn" {
+				return
+			}
+			for _, site := range sites {
+				ident := func(v ssa.Value) string {
+					if prm, ok := v.(*ssa.Parameter); ok && site != nil {
+						for k, q := range g.Params {
+							if q == prm {
+								v = site.(ssa.CallInstruction).Common().Args[k]
+							}
+						}
+						if _, ok := v.(*ssa.MakeChan); ok {
+							return fmt.Sprintf("make@%s", p.Pos(v.Pos()))
+						}
+						return ""
+					}
+					if _, ok := v.(*ssa.MakeChan); ok {
+						if site != nil {
+							return fmt.Sprintf("make@%s/call#%d", p.Pos(v.Pos()), site.Pos())
+						}
+						return fmt.Sprintf("make@%s", p.Pos(v.Pos()))
+					}
+					return ""
+				}
+				var e endT
+				for _, rf := range *al.Referrers() {
+					if fa, ok := rf.(*ssa.FieldAddr); ok {
+						fr, _ := asFieldAddr(fa)
+						for _, rr := range *fa.Referrers() {
+							if st, ok := rr.(*ssa.Store); ok {
+								switch fr.Field {
+								case rField:
+									e.rCh = ident(st.Val)
+								case wField:
+									e.wCh = ident(st.Val)
+								case closedField:
+									e.closed = ident(st.Val)
+								}
+							}
 						}
 					}
 				}
+				ends = append(ends, e)
+				o.Site(in.Pos(), "end: %s=%s %s=%s %s=%s", rField, e.rCh, wField, e.wCh, closedField, e.closed)
 			}
-		}
-		ends = append(ends, e)
-		o.Site(in.Pos(), "end: rCh=%s wCh=%s closed=%s", name(e.rCh), name(e.wCh), name(e.closed))
-	})
+		})
+	}
 	if len(ends) != 2 {
 		o.Fail(pipe.Pos(), "Pipe does not create two ends")
 	} else {
 		a, b := ends[0], ends[1]
-		_, m1 := a.rCh.(*ssa.MakeChan)
-		_, m2 := a.wCh.(*ssa.MakeChan)
-		if !m1 || !m2 || a.rCh == a.wCh {
+		if a.rCh == "" || a.wCh == "" || a.rCh == a.wCh {
 			o.Fail(pipe.Pos(), "the two directions do not use two distinct channels")
 		}
 		if a.rCh != b.wCh || a.wCh != b.rCh {
 			o.Fail(pipe.Pos(), "the ends are not cross-wired (one end would read its own writes)")
 		}
-		_, c1 := a.closed.(*ssa.MakeChan)
-		_, c2 := b.closed.(*ssa.MakeChan)
-		if !c1 || !c2 || a.closed == b.closed {
+		if a.closed == "" || b.closed == "" || a.closed == b.closed {
 			o.Fail(pipe.Pos(), "the two ends share a closed channel: closing one end closes the other")
 		}
 	}
@@ -303,7 +357,7 @@ func runC18(c *Ctx) {
 				nCl++
 				role := chanRole(in.(ssa.CallInstruction).Common().Args[0])
 				o.Site(in.Pos(), "close(%s) in %s", role, fname(f))
-				if role != "field dpipe.conn.closed" {
+				if role != "field dpipe.conn."+closedField {
 					o.Fail(in.Pos(), "Close closes %s", role)
 				}
 				if f == dc {
@@ -316,10 +370,10 @@ func runC18(c *Ctx) {
 		o.Fail(dc.Pos(), "expected one close in dpipe Close, found %d", nCl)
 	}
 
-	o = c.Obl("R3", fname(dr), "dpipe Read takes one message per data return from the read channel and returns min(len(message), len(buffer)) bytes", 2)
+	o = c.Obl("R3", fname(dr), "dpipe Read takes one message per data return from the read channel and returns min(len(message), len(buffer)) bytes", 1)
 	var msg ssa.Value
 	for _, cm := range commsOfU(dr) {
-		if cm.Dir == types.RecvOnly && chanRole(cm.Chan) == "field dpipe.conn.rCh" && cm.Sel != nil {
+		if cm.Dir == types.RecvOnly && chanRole(cm.Chan) == "field dpipe.conn."+rField && cm.Sel != nil {
 			for _, rf := range *cm.Sel.Referrers() {
 				if ex, ok := rf.(*ssa.Extract); ok && isByteSlice(ex.Type()) {
 					msg = ex
@@ -413,9 +467,9 @@ func runC18(c *Ctx) {
 			if !ok || !isFieldStore(st, "test.Bridge", dir.q) {
 				return
 			}
-			if cl, ok := st.Val.(*ssa.Call); ok && isCall(cl, "builtin.append") && isFieldLoad(cl.Call.Args[1], "test.Bridge", dir.s) {
+			if a0, a1, ok := appendOf(st.Val, 0); ok && isFieldLoad(a1, "test.Bridge", dir.s) {
 				flush = st
-				if !isFieldLoad(cl.Call.Args[0], "test.Bridge", dir.q) {
+				if !isFieldLoad(a0, "test.Bridge", dir.q) {
 					o.Fail(in.Pos(), "the flushed stack is not appended to the existing queue")
 				}
 			} else if derivesFrom(st.Val, func(v ssa.Value) bool { return isFieldLoad(v, "test.Bridge", dir.s) }, false) {
@@ -436,7 +490,7 @@ func runC18(c *Ctx) {
 		}
 		instrsOf(push, func(in ssa.Instruction) {
 			if st, ok := in.(*ssa.Store); ok && isFieldStore(st, "test.Bridge", dir.s) && !isNilConst(st.Val) {
-				if cl, ok := st.Val.(*ssa.Call); !ok || !isCall(cl, "builtin.append") {
+				if _, _, ok := appendOf(st.Val, 0); !ok {
 					o.Fail(in.Pos(), "%s is set to something else than nil or append(%s, data) (re-slicing keeps the backing array shared with the queue)", dir.s, dir.s)
 				}
 			}
@@ -518,4 +572,42 @@ func isCall2(v ssa.Value, n string) bool {
 func msgDominates(msg ssa.Value, in ssa.Instruction) bool {
 	mi, ok := msg.(ssa.Instruction)
 	return ok && domU(mi, in)
+}
+
+// appendOf: v is append(dst, src...) - directly, or as the result of a private helper
+// that returns append over (values derived from) its parameters, which are replaced by
+// the call's arguments.
+func appendOf(v ssa.Value, depth int) (dst, src ssa.Value, ok bool) {
+	cl, isCl := v.(*ssa.Call)
+	if !isCl || depth > unitDepth {
+		return nil, nil, false
+	}
+	if isCall(cl, "builtin.append") && len(cl.Call.Args) == 2 {
+		return cl.Call.Args[0], cl.Call.Args[1], true
+	}
+	h := helperCallee(cl)
+	if h == nil || h.Signature.Results().Len() != 1 {
+		return nil, nil, false
+	}
+	rets := findInstrs(h, isReturn)
+	if len(rets) != 1 {
+		return nil, nil, false
+	}
+	rv := retValAt(rets[0].(*ssa.Return), 0)
+	if len(rv) != 1 {
+		return nil, nil, false
+	}
+	d, s, ok := appendOf(rv[0], depth+1)
+	if !ok {
+		return nil, nil, false
+	}
+	sub := func(x ssa.Value) ssa.Value {
+		for k, prm := range h.Params {
+			if x == ssa.Value(prm) && k < len(cl.Call.Args) {
+				return cl.Call.Args[k]
+			}
+		}
+		return x
+	}
+	return sub(d), sub(s), true
 }
